@@ -130,7 +130,7 @@ class LinearEstimate(E2Contract):
             k += sz
         rx = est.calc_estimate(qt, exact)
         # different sample counts attached to the same data
-        r1b = est.calc_estimate(qt, [(inp["n2"], fj) for fj in inp["f"]])
+        r1b = est.calc_estimate(qt, [((inp["n2"] if j % 2 else 3 * inp["n1"]), fj) for j, fj in enumerate(inp["f"])])
         return dict(A=A, b=b, v1=r1.estimated_var, v2=r2.estimated_var, seq=list(rs.estimated_var_sequence), vx=rx.estimated_var,
                     v1b=r1b.estimated_var, obj1=stacked(W, r1.estimated_qoperation),
                     obj_seq=[stacked(W, o) for o in rs.estimated_qoperation_sequence], full_rank=qt.is_fullrank_matA())
@@ -146,7 +146,7 @@ class LinearEstimate(E2Contract):
                    "A^T (A v + b - f) == 0 for EVERY data vector f: the residual is orthogonal to the model"),
                 eq("exact-data=>exact-recovery", out["vx"], inp["x"], "f == A x + b  =>  estimate == x, for every x"),
                 eq("sequence==pointwise", out["seq"], [out["v1"], out["v2"]], "estimating a sequence gives the list of single estimates"),
-                eq("independent-of-sample-counts", out["v1b"], out["v1"], "the estimate does not depend on the sample counts attached to the data"),
+                eq("independent-of-sample-counts", out["v1b"], out["v1"], "the estimate does not depend on the sample counts attached to the data (counts differing between schedules)"),
                 eq("estimated_qoperation", out["obj1"], stacked(W, tmpl.generate_from_var(out["v1"])), "estimated_qoperation == generate_from_var(estimated_var)"),
                 eq("estimated_qoperation_sequence", out["obj_seq"], [stacked(W, tmpl.generate_from_var(v)) for v in (out["v1"], out["v2"])], "likewise for sequences"),
                 eq("full-column-rank", out["full_rank"], True, "informationally complete testers => the model has full column rank (exact rank)")]
